@@ -4,6 +4,7 @@ import Mieru.Proofs.C09
 import Mieru.Proofs.C09LE
 import Mieru.Gen.Consts
 import Mieru.Gen.FactsC08
+import Mieru.Gen.FactsC08Scope
 /-!
 # C08 — clocks within one minute agree on keys; stale segments are refused; cached key
 # material is never used for another slot
@@ -446,6 +447,116 @@ theorem established_session_accepts_original_key (A : Spec.AeadFns) (hA : Spec.A
     simp only [stampOk, hstamp]
     exact timestamp_accepted_under_skew_u32 ts tr hts htr hws hwr hs1 hs2
   simp only [recvLaterTcp, hp, hok, if_true]
+
+/-! ## Cache and handshake composed (round 4)
+
+The property's sentence in one statement: whatever the process-wide cache and the decryptors went through
+before (any invariant state — any history, any number of decryptors, any monotonic readings), the key list
+decryptor `dec` obtains at `tr` IS the candidate list of the first-contact receiver, and with it the
+receiver accepts the first segment keyed at `tk` and stamped at `ts` / refuses one keyed ≥ 240 s away. -/
+
+/-- what `newBlockCipherList` derives for a slot when `keyOf` maps a slot to its key -/
+def deriveKeys (keyOf : Int → Bytes) (e : Int) : List Bytes := (slotKeys e).map keyOf
+
+/-- the keys any decryptor uses at `tr`, after any history, are the three slot keys of `tr` -/
+theorem cache_keys_are_candKeys (keyOf : Int → Bytes) (validNs : Int) (s : State (List Bytes))
+    (hs : Mieru.Proofs.C08.StateOk (deriveKeys keyOf) s) (dec : Nat) (tr : Int) (mono : Option Int) (j : Int) :
+    (tryEntry validNs (deriveKeys keyOf) s dec ⟨tr, mono⟩ j).1.keys = candKeys keyOf tr := by
+  have h := (Mieru.Proofs.C08.step_ok validNs (deriveKeys keyOf) s hs (.tryDecrypt dec ⟨tr, mono⟩ j)).2.1
+  simp only [step, Op.now] at h
+  rw [h]
+  rfl
+
+theorem handshake_succeeds_through_cache (A : Spec.AeadFns) (hA : Spec.AeadLaws A) (keyOf : Int → Bytes)
+    (validNs : Int) (st : State (List Bytes)) (hst : Mieru.Proofs.C08.StateOk (deriveKeys keyOf) st)
+    (dec : Nat) (mono : Option Int) (j : Int)
+    (tk ts tr : Int) (hts : 0 ≤ ts) (htr : 0 ≤ tr)
+    (hws : ts < 257698037760000000000) (hwr : tr < 257698037760000000000)
+    (hk1 : -120000000000 ≤ tr - tk) (hk2 : tr - tk ≤ 120000000000)
+    (hs1 : -60000000000 ≤ tr - ts) (hs2 : tr - ts ≤ 60000000000)
+    (n0 : Bytes) (hn : n0.length = 24)
+    (hcommit : ∀ e ∈ saltTimes tr, keyOf e ≠ keyOf (epoch tk) →
+      ∀ p, A.openF (keyOf e) n0 (A.sealF (keyOf (epoch tk)) n0 p) = none)
+    (s : Spec.Segment) (hw : s.wf) (hstamp : s.md.timestamp = minuteU32 ts) (lePad : Bool)
+    (bytes rest : Bytes) (t' : Spec.Tx)
+    (hs : sendFirstTcp A keyOf tk n0 s lePad = some (bytes, t')) :
+    (tryEntry validNs (deriveKeys keyOf) st dec ⟨tr, mono⟩ j).1.keys = candKeys keyOf tr ∧
+    keyOf (epoch tk) ∈ (tryEntry validNs (deriveKeys keyOf) st dec ⟨tr, mono⟩ j).1.keys ∧
+    recvFirstTcp A keyOf tr (bytes ++ rest)
+      = some ⟨keyOf (epoch tk), s.md, s.payload, bytes.length, t'.nonce⟩ := by
+  have hc := cache_keys_are_candKeys keyOf validNs st hst dec tr mono j
+  refine ⟨hc, ?_, handshake_succeeds_three_instants A hA keyOf tk ts tr hts htr hws hwr hk1 hk2 hs1 hs2 n0 hn
+    hcommit s hw hstamp lePad bytes rest t' hs⟩
+  rw [hc]
+  have := slot_agreement_120 tk (tr - tk) hk1 hk2
+  have e : tk + (tr - tk) = tr := by omega
+  rw [e] at this
+  exact List.mem_map_of_mem this
+
+theorem stale_key_refused_through_cache (A : Spec.AeadFns) (hA : Spec.AeadLaws A) (keyOf : Int → Bytes)
+    (validNs : Int) (st : State (List Bytes)) (hst : Mieru.Proofs.C08.StateOk (deriveKeys keyOf) st)
+    (dec : Nat) (mono : Option Int) (j : Int)
+    (tk tr : Int) (h : tr - tk ≤ -240000000000 ∨ 240000000000 ≤ tr - tk)
+    (hinj : ∀ e ∈ saltTimes tr, keyOf e = keyOf (epoch tk) → e = epoch tk)
+    (n0 : Bytes) (hn : n0.length = 24)
+    (hcommit : ∀ e ∈ saltTimes tr, keyOf e ≠ keyOf (epoch tk) →
+      ∀ p, A.openF (keyOf e) n0 (A.sealF (keyOf (epoch tk)) n0 p) = none)
+    (s : Spec.Segment) (lePad : Bool) (bytes rest : Bytes) (t' : Spec.Tx)
+    (hs : sendFirstTcp A keyOf tk n0 s lePad = some (bytes, t')) :
+    keyOf (epoch tk) ∉ (tryEntry validNs (deriveKeys keyOf) st dec ⟨tr, mono⟩ j).1.keys ∧
+    recvFirstTcp A keyOf tr (bytes ++ rest) = none := by
+  refine ⟨?_, (stale_key_not_parsed A hA keyOf tk tr h hinj n0 hn hcommit s lePad bytes rest t' hs).2⟩
+  rw [cache_keys_are_candKeys keyOf validNs st hst dec tr mono j]
+  intro hm
+  simp only [candKeys, List.mem_map] at hm
+  obtain ⟨e, he, heq⟩ := hm
+  have hnot : epoch tk ∉ saltTimes tr := by
+    have := slot_reject_4min tk (tr - tk) h
+    have e' : tk + (tr - tk) = tr := by omega
+    rwa [e'] at this
+  exact hnot (hinj e he heq ▸ he)
+
+/-! ## Tie (T) for the SCOPE statement: where the underlays select a key by the clock
+
+`lean/Mieru/Gen/FactsC08Scope.lean` (tools/goextract/c08scope.go): in both `readOneSegment` functions, the calls
+that choose a key, unmarshal the metadata and read the payload, each with its enclosing conditions, in source order. -/
+
+/-- TCP: the clock-based discovery (`serverInitRecvBlockCipherAndDecryptMetadata` → `Discover`) runs ONLY while
+    the direction has no receive cipher (`t.recv == nil`; a client takes the key fixed at dial time); otherwise
+    the stored cipher `t.recv` decrypts — also every payload.  `t.recv` is assigned nowhere else.  `Unmarshal`
+    (the timestamp test) precedes the reading of the payload for both metadata kinds. -/
+theorem tie_scope_tcp :
+    Mieru.Gen.FactsC08Scope.tcpReadOneSegment =
+      [("t.block.Clone", "t.recv == nil && t.isClient"),
+       ("t.serverInitRecvBlockCipherAndDecryptMetadata", "t.recv == nil"),
+       ("t.recv.Decrypt", "!(t.recv == nil)"),
+       ("ss.Unmarshal", "isSessionProtocol(protocolType(p))"),
+       ("t.readSessionSegment", "isSessionProtocol(protocolType(p))"),
+       ("das.Unmarshal", "!(isSessionProtocol(protocolType(p))) && isDataAckProtocol(protocolType(p))"),
+       ("t.readDataAckSegment", "!(isSessionProtocol(protocolType(p))) && isDataAckProtocol(protocolType(p))")] ∧
+    Mieru.Gen.FactsC08Scope.tcpFirstContact = [("t.serverUsers.Discover", ""), ("t.recv.Decrypt", "")] ∧
+    Mieru.Gen.FactsC08Scope.tcpSessionPayload = [("t.recv.Decrypt", "ss.payloadLen > 0")] ∧
+    Mieru.Gen.FactsC08Scope.tcpDataAckPayload = [("t.recv.Decrypt", "das.payloadLen > 0")] ∧
+    Mieru.Gen.FactsC08Scope.tcpRecvAssignments =
+      ["StreamUnderlay.readOneSegment: t.recv = t.block.Clone()",
+       "StreamUnderlay.serverInitRecvBlockCipherAndDecryptMetadata: t.recv = block",
+       "StreamUnderlay.serverInitRecvBlockCipherAndDecryptMetadata: t.recv = nil"] := by decide
+
+/-- UDP: a server tries the ciphers of its EXISTING sessions first (no clock) and runs the clock-based discovery
+    only when none of them opened the metadata; a client uses the key fixed at dial time; `Unmarshal` precedes
+    the parsing of the payload. -/
+theorem tie_scope_udp :
+    Mieru.Gen.FactsC08Scope.udpReadOneSegment =
+      [("u.block.Decrypt", "u.isClient"),
+       ("u.tryDecryptExistingSession", "!(u.isClient)"),
+       ("u.serverTryDecryptMetadataForNewSession", "!(u.isClient) && !decrypted"),
+       ("ss.Unmarshal", "isSessionProtocol(protocolType(p))"),
+       ("u.parseSessionSegment", "isSessionProtocol(protocolType(p))"),
+       ("das.Unmarshal", "!(isSessionProtocol(protocolType(p))) && isDataAckProtocol(protocolType(p))"),
+       ("u.parseDataAckSegment", "!(isSessionProtocol(protocolType(p))) && isDataAckProtocol(protocolType(p))")] ∧
+    Mieru.Gen.FactsC08Scope.udpExistingSession =
+      [("(*sessionBlock).Decrypt", "func literal && sessionBlock != nil && session.RemoteAddr().String() == addr.String()")] ∧
+    Mieru.Gen.FactsC08Scope.udpNewSession = [("u.serverUsers.Discover", "")] := by decide
 
 /-! ## Tie (T): the model equals the definitions REGENERATED from the Go source
 
